@@ -1,4 +1,6 @@
 #!/bin/sh
+# evidence of runs against deliberately broken trees goes to a scratch directory, never to evidence/
+export VERIF_EVIDENCE_DIR="${VERIF_EVIDENCE_DIR:-/verif/sim/target/evidence-scratch}"
 # For one seeded change per property: apply it, run the quick check, take the first replay file
 # it reports, re-execute that file in a fresh process (must reproduce: exit 1), revert the change
 # and re-execute again (must say "not reproduced": exit 0).
